@@ -1,0 +1,61 @@
+//! Verification hooks.
+//!
+//! This module only exists when the crate is compiled with the
+//! `verif-hooks` Cargo feature. It lets a test harness observe the
+//! internal steps of the wrapping pipeline as a sequence of small
+//! numeric events. Nothing is recorded unless a sink has been
+//! installed on the current thread with [`install`], and the hooks
+//! never influence the results of the functions they are placed in.
+
+use std::cell::RefCell;
+
+/// One recorded step: the name of the hook site and a few numbers
+/// describing the state at that point.
+#[derive(Debug, Clone, PartialEq)]
+pub struct Event {
+    /// Name of the hook site.
+    pub site: &'static str,
+    /// Scalar state at the hook site.
+    pub vals: Vec<i64>,
+}
+
+thread_local! {
+    static SINK: RefCell<Option<Vec<Event>>> = const { RefCell::new(None) };
+}
+
+/// Start recording events on the current thread.
+pub fn install() {
+    SINK.with(|s| *s.borrow_mut() = Some(Vec::new()));
+}
+
+/// Stop recording and return the events recorded since [`install`].
+pub fn take() -> Vec<Event> {
+    SINK.with(|s| s.borrow_mut().take().unwrap_or_default())
+}
+
+/// Record an event if a sink is installed.
+pub(crate) fn emit(site: &'static str, vals: &[i64]) {
+    SINK.with(|s| {
+        if let Some(events) = s.borrow_mut().as_mut() {
+            events.push(Event {
+                site,
+                vals: vals.to_vec(),
+            });
+        }
+    });
+}
+
+/// Convert a `usize` for logging (saturating).
+pub(crate) fn n(x: usize) -> i64 {
+    i64::try_from(x).unwrap_or(i64::MAX)
+}
+
+/// Convert an `f64` for logging: integral values in range as they
+/// are, everything else as `-1`.
+pub(crate) fn f(x: f64) -> i64 {
+    if x.is_finite() && x.fract() == 0.0 && x >= 0.0 && x < 9.0e18 {
+        x as i64
+    } else {
+        -1
+    }
+}
